@@ -696,7 +696,13 @@ fn gen_op(rng: &mut Rng, sv: &Server, g: &mut Gen, p: &Params) -> Op {
                 d as u128
             };
             let id = if p.extreme && rng.chance(1, 4) { u64::MAX - g.nreq } else { id };
-            Op::InjectReq { id, d, tid: 200 + g.nreq as u128, span: 8000 + g.nreq, sampled: rng.chance(1, 2), body: 600 + g.nreq }
+            // boundary-valued trace fields too (a child span id is derived from the peer's)
+            let (tid, span) = if p.extreme && rng.chance(1, 4) {
+                (u128::MAX - g.nreq as u128, u64::MAX - rng.below(2))
+            } else {
+                (200 + g.nreq as u128, 8000 + g.nreq)
+            };
+            Op::InjectReq { id, d, tid, span, sampled: rng.chance(1, 2), body: 600 + g.nreq }
         }
         1 => {
             let id = if rng.chance(1, 8) { 999 } else { *rng.pick(&g.ids) };
